@@ -122,7 +122,7 @@ theorem foldC_own (w : Bool) : ∀ (obs : List CD.Obs) (mon mon' : Mon) (extra :
           split at hm
           · rename_i hc
             simp at hm; subst hm
-            obtain ⟨h1, h3⟩ := hc
+            obtain ⟨h1, _, h3⟩ := hc
             cases hw : mon.waiting with
             | nil => simp [hw] at h3
             | cons a t =>
